@@ -749,6 +749,13 @@ def build_raw(spec):
             tattrs["calendar"] = t["calendar"]
         tattrs.update(t.get("extra_attrs") or {})
         dtype = numpy.float64 if t.get("dtype", "f8") == "f8" else numpy.int32
+        if t.get("bounds"):
+            # CF time bounds: a (time, 2) variable named by the bounds attribute; it carries no
+            # units of its own (it inherits the coordinate's)
+            tattrs["bounds"] = t["name"] + "_bnds"
+            pairs = [[v, v + 1] for v in t["values"]]
+            data_vars[t["name"] + "_bnds"] = (
+                [t["dim"], "tnv"], numpy.array(pairs, dtype=dtype).reshape(len(pairs), 2), {})
         target = coords if (t.get("as", "coord") == "coord" or t["name"] == t["dim"]) else data_vars
         target[t["name"]] = ([t["dim"]], numpy.array(t["values"], dtype=dtype), tattrs)
 
